@@ -44,7 +44,6 @@ var execPrefixes = []string{
 	"errors",
 	"io",
 	"math/bits",
-	"math",
 	"unicode/utf8",
 	"unicode",
 	"cmp",
@@ -79,7 +78,9 @@ var stubPrefixes = []string{
 	"text/",
 	"unique",
 	"weak",
-	"internal/",
+	"internal/reflectlite",
+	"internal/godebug",
+	"internal/poll",
 	"syscall",
 	"math/rand",
 }
